@@ -1,0 +1,49 @@
+// SPDX-FileCopyrightText: 2026 The Pion community <https://pion.ly>
+// SPDX-License-Identifier: MIT
+
+//go:build verif
+
+package pacing
+
+import "time"
+
+// VerifEvent is one call on the rate limiter as seen by the recording wrapper.
+type VerifEvent struct {
+	Kind  string // init | set | allow
+	T     time.Time
+	N     int
+	OK    bool
+	Rate  int
+	Burst int
+}
+
+type verifPacer struct {
+	inner pacer
+	rec   func(VerifEvent)
+}
+
+func (p *verifPacer) SetRate(r, burst int) {
+	p.rec(VerifEvent{Kind: "set", T: time.Now(), Rate: r, Burst: burst})
+	p.inner.SetRate(r, burst)
+}
+
+func (p *verifPacer) Budget(t time.Time) float64 { return p.inner.Budget(t) }
+
+func (p *verifPacer) AllowN(t time.Time, n int) bool {
+	ok := p.inner.AllowN(t, n)
+	p.rec(VerifEvent{Kind: "allow", T: t, N: n, OK: ok})
+
+	return ok
+}
+
+// VerifRecordingLimiter installs the real rate-limit pacer wrapped by a recorder of its calls.
+func VerifRecordingLimiter(rec func(VerifEvent)) Option {
+	return setPacerFactory(func(initialRate, burst int) pacer {
+		rec(VerifEvent{Kind: "init", T: time.Now(), Rate: initialRate, Burst: burst})
+
+		return &verifPacer{inner: newRateLimitPacer(initialRate, burst), rec: rec}
+	})
+}
+
+// VerifBurst exposes burst().
+func VerifBurst(rate int, interval time.Duration) int { return burst(rate, interval) }
